@@ -126,20 +126,23 @@ def analyse(rep: Report) -> None:
     if not specials:
         raise AnalysisError('SPECIAL_AST_VALUES not found in manifest_options.py')
     branch_vals = set()
+    # names that hold a plain copy of the option (start = options.availabilityStartTime) are the option
+    copies = {OPT_START}
     for n in ast.walk(live):
-        if isinstance(n, ast.Compare) and norm(n.left) == OPT_START and isinstance(n.ops[0], ast.Eq) \
-                and isinstance(n.comparators[0], ast.Constant):
+        if isinstance(n, (ast.Assign, ast.AnnAssign)) and getattr(n, 'value', None) is not None \
+                and norm(n.value) == OPT_START:
+            t = n.targets[0] if isinstance(n, ast.Assign) else n.target
+            if isinstance(t, ast.Name):
+                copies.add(t.id)
+    for n in ast.walk(live):
+        if isinstance(n, ast.Compare) and norm(n.left) in copies and isinstance(n.comparators[0], ast.Constant) \
+                and isinstance(n.ops[0], ast.Eq):
             branch_vals.add(n.comparators[0].value)
-    for v in sorted(specials | branch_vals):
-        if v in specials and v in branch_vals:
-            rep.ok('R08.8', construct, f'start={v}', 'accepted by the parser and resolved by its own branch')
-        elif v in specials:
-            rep.fail('R08.8', construct, f'start={v}',
-                     f'the parser accepts the symbolic start `{v}` but calculate_live_params has no '
-                     'branch for it: the string is used as availabilityStartTime', live)
-        else:
-            rep.fail('R08.8', construct, f'start={v}',
-                     f'calculate_live_params resolves `{v}`, which the option parser does not accept', live)
+        elif isinstance(n, ast.Compare) and norm(n.left) in copies and isinstance(n.ops[0], ast.In) \
+                and isinstance(n.comparators[0], (ast.Tuple, ast.List, ast.Set)):
+            # membership only groups values; each still needs a path of its own (checked at the exits)
+            pass
+    r08_8_pending = (specials, branch_vals)
 
     # ---- abstract interpretation ---------------------------------------------------
     dom = TimeDomain(clock='now')
@@ -249,7 +252,7 @@ def analyse(rep: Report) -> None:
                 f'timeShiftBufferDepth can be negative or non-integer (interval [{lo:g}, {hi:g}]): a '
                 'negative `depth` option is used as it is')
         d_el = dom.diff_of(s, EL)
-        el_exact = d_el is not None and d_el[0] == 'now' and dom.same(s, d_el[1], AST_)
+        el_exact = d_el is not None and dom.same(s, d_el[0], 'now') and dom.same(s, d_el[1], AST_)
         if not el_exact:
             dlo, dhi = -dfl(AST_, 'now'), dfl('now', AST_)
             elo, ehi = s.bound(EL)
@@ -280,6 +283,8 @@ def analyse(rep: Report) -> None:
                     f'minimumUpdatePeriod can be <= 0 where it is used (lower bound {plo:g})')
             if tag and tag[0] == 'base+mult' and tag[2] != MUP and dfl(tag[2], MUP) <= 0 and dfl(MUP, tag[2]) <= 0:
                 tag = (tag[0], tag[1], MUP)             # a local alias of the period
+            if tag and tag[0] == 'base+mult' and tag[1] != AST_ and dom.same(s, tag[1], AST_):
+                tag = (tag[0], AST_, tag[2])            # a local that holds the same instant
             verdict('R08.6', 'publishTime quantised', tag == ('base+mult', AST_, MUP),
                     'availabilityStartTime + int(elapsed // p) * p',
                     'publishTime is not availabilityStartTime plus int(elapsed // p) * p on a whole second '
@@ -331,6 +336,20 @@ def analyse(rep: Report) -> None:
                      f'{text} is not implied on the path {bad[0][2] or "(entry)"}: ZeroDivisionError', bad[0][1])
         else:
             rep.ok('R08.7', construct, text, f'on {len(rs)} path state(s)')
+    # R08.8: a symbolic value is resolved when some path through the function is taken for it alone
+    # (an `==` test, or the residue of a membership test) - read off the labels of the exits
+    specials_, branch_vals_ = r08_8_pending
+    branch_vals_ = set(branch_vals_) | {l for l in seen_labels if l != 'explicit'}
+    for v in sorted(specials_ | branch_vals_):
+        if v in specials_ and v in branch_vals_:
+            rep.ok('R08.8', construct, f'start={v}', 'accepted by the parser and resolved by its own branch')
+        elif v in specials_:
+            rep.fail('R08.8', construct, f'start={v}',
+                     f'the parser accepts the symbolic start `{v}` but calculate_live_params has no '
+                     'branch for it: the string is used as availabilityStartTime', live)
+        else:
+            rep.fail('R08.8', construct, f'start={v}',
+                     f'calculate_live_params resolves `{v}`, which the option parser does not accept', live)
     missing = (symbolic | {'explicit'}) - seen_labels
     if missing:
         raise AnalysisError(f'no normal exit reached for start values {sorted(missing)}')
